@@ -78,6 +78,12 @@ func c17Units(tier string) []Unit {
 			Alphabet: soft.ops(), Depth: depth, Budget: explore.Budget{Provides: 2, Decorates: 1, Invokes: 2, Rejected: 1}, Allowed: onceEach,
 			Monitors: []explore.Monitor{dryMonitor},
 		}})
+		robj := alpha{scopes: []int{0, 1}, ctors: []*uFunc{pAmiss, pB0, pA}, decos: []*uFunc{dA0o, dABo}, invokes: []*uFunc{iA, iB}}
+		units = append(units, Unit{Sc: &Scenario{
+			Name: fmt.Sprintf("dry/result-object-decorators/defer=%v", def), Cfg: h.Config{Dry: true, Defer: def}, Prefix: prefixChild,
+			Alphabet: robj.ops(), Depth: depth, Budget: explore.Budget{Provides: 2, Decorates: 1, Invokes: 2, Rejected: 1}, Allowed: onceEach,
+			Monitors: []explore.Monitor{dryMonitor},
+		}})
 		as := alpha{scopes: []int{0, 1}, ctors: []*uFunc{kAasI, kAasII, kIplain, pCia}, export: true, decos: []*uFunc{dIA}, invokes: []*uFunc{qI, qII, qIn, iC}}
 		units = append(units, Unit{Sc: &Scenario{
 			Name: fmt.Sprintf("dry/as/defer=%v", def), Cfg: h.Config{Dry: true, Defer: def}, Prefix: prefixChild,
@@ -92,6 +98,9 @@ var (
 	fGmiss = u.F("fGmiss", "D", "A", u.Group("g")) // group member whose dependency D nobody provides
 	dG0    = u.F("dG0", "", "{[A]!1+g}")           // group decorator that does not consume the group
 	dGsoft = u.F("dGsoft", "{A*g~}", "{[A]!1+g}")  // group decorator with a soft view of the group
+	pAmiss = u.F("pAmiss", "D", "A")               // A whose dependency D nobody provides
+	dA0o   = u.F("dA0o", "", "{A}")                // decorator replacing A, returning a result object
+	dABo   = u.F("dABo", "A,B", "{A;B}")           // multi-key decorator returning a result object
 	pMfl   = u.F("pMfl", "", "{B;[A]+g!2}")        // B plus two flattened members of g
 	dGmiss = u.F("dGmiss", "{A*g},C", "{[A]!1+g}") // group decorator with a dependency nobody provides
 	dGpub  = u.F("dGpub", "{A*g}", "{[A]!1+g},D")  // group decorator that also publishes D
